@@ -512,7 +512,14 @@ func (c03) Shrink(raw json.RawMessage) []any {
 				return
 			}
 		}
-		out = append(out, c03Case{Class: c.Class, Prog: p, Src: c03ProgSrc(p), Runs: c.Runs, Seed: c.Seed})
+		if len(out) >= 8 { // every candidate costs Runs executions: keep a shrinking round cheap
+			return
+		}
+		runs := c.Runs
+		if runs > 20 {
+			runs = 20
+		}
+		out = append(out, c03Case{Class: c.Class, Prog: p, Src: c03ProgSrc(p), Runs: runs, Seed: c.Seed})
 	}
 	for i := range c.Prog {
 		p := clone()
